@@ -1,12 +1,13 @@
 import Babylon.Core.Proto
 import Babylon.Wire.Codec
 import Babylon.Wire.Pb
+import Babylon.Wire.Traits
 /-! Line-protocol driver for the serialization model (property C11).
 
     usage: drv_C11 [debug|ndebug]
 
     type <id> <type-expr>                 register a type under an id            -> ok
-    enc  <id> <value>                     size + serialize                       -> ok <size> <hex|->
+    enc  <id> <value>                     calculated size (`calcSize`) + serialize -> ok <size> <hex|->
     encu <id> <value>                     like enc, the bytes printed sorted (types with unordered containers)
     enc2 <id> <value1> <value2>           serialize value1, mutate the same object to value2,
                                           serialize again (the model has no caches: = enc value2)
@@ -211,7 +212,7 @@ def step (s : DSt) (line : String) : DSt × String :=
   | ["enc", id, v] =>
     match s.types.lookup id with
     | some t => match runP (valP t) v with
-      | some x => (s, s!"ok {size t x} {hexOrDash (encode t x)}")
+      | some x => (s, s!"ok {calcSize Babylon.Gen.Wire.ptrInheritsTrivial t x} {hexOrDash (encode t x)}")
       | none => (s, "bad-value")
     | none => (s, "bad-id")
   | ["pb", id, v] =>
@@ -223,13 +224,19 @@ def step (s : DSt) (line : String) : DSt × String :=
   | ["encu", id, v] =>
     match s.types.lookup id with
     | some t => match runP (valP t) v with
-      | some x => (s, s!"ok {size t x} {hexOrDash (sortBytes (encode t x))}")
+      | some x => (s, s!"ok {calcSize Babylon.Gen.Wire.ptrInheritsTrivial t x} {hexOrDash (sortBytes (encode t x))}")
+      | none => (s, "bad-value")
+    | none => (s, "bad-id")
+  | ["enc2u", id, _, v] =>
+    match s.types.lookup id with
+    | some t => match runP (valP t) v with
+      | some x => (s, s!"ok {calcSize Babylon.Gen.Wire.ptrInheritsTrivial t x} {hexOrDash (sortBytes (encode t x))}")
       | none => (s, "bad-value")
     | none => (s, "bad-id")
   | ["enc2", id, _, v] =>
     match s.types.lookup id with
     | some t => match runP (valP t) v with
-      | some x => (s, s!"ok {size t x} {hexOrDash (encode t x)}")
+      | some x => (s, s!"ok {calcSize Babylon.Gen.Wire.ptrInheritsTrivial t x} {hexOrDash (encode t x)}")
       | none => (s, "bad-value")
     | none => (s, "bad-id")
   | ["rt", id, v, p] =>
